@@ -1,7 +1,8 @@
 (* C05_Full.v — proofs about the FULL model [xmodel] of C05_Model.v: every answer a
    validator can give (error with or without results, short and overlong result
-   vectors, annotations), the value of the signing time, the verifier without a
-   validator; and the refinement [model] = projection of [xmodel]. *)
+   vectors, nil entries, annotations), the value of the signing time, the verifier
+   without a validator; the refinement [model] = projection of [xmodel]; and the
+   pre-fix variant [xmodel_v0] (before /repo commit d78db00). *)
 From NV Require Import Base C05_Model C05_Proofs.
 
 Definition nokp (x : rres * string) := negb (is_ok (fst x)).
@@ -114,18 +115,8 @@ Qed.
 Lemma action_eq_dec (a b : action) : {a = b} + {a <> b}.
 Proof. decide equality. Qed.
 
-Definition xconsulted (x : xinput) : Prop :=
-  x_action x <> Skip /\ x_val x <> 4%N.
-
 Lemma xmodel_skip x : x_action x = Skip -> xmodel x = mk_xobs [] None false false.
 Proof. intros H. unfold xmodel. now rewrite H. Qed.
-
-Definition xcalls (x : xinput) : list xcall :=
-  match x_val x with
-  | 0%N => []
-  | 2%N => [mk_xcall 2 (x_chain x) (xtime x)]
-  | _ => [mk_xcall 1 (x_chain x) (xtime x)]
-  end.
 
 Lemma xmodel_novalidator x : x_action x <> Skip -> x_val x = 4%N ->
   xmodel x = mk_xobs [] (Some Inconclusive) (enforce_fails (x_action x) Inconclusive) false.
@@ -134,38 +125,85 @@ Proof. intros Ha Hv. unfold xmodel. rewrite Hv. destruct (x_action x); try congr
 Lemma xmodel_err x : x_action x <> Skip -> x_val x <> 4%N -> x_err x = true ->
   xmodel x = mk_xobs (xcalls x) (Some Inconclusive) (enforce_fails (x_action x) Inconclusive) false.
 Proof.
-  intros Ha Hv He. unfold xmodel, xcalls. apply N.eqb_neq in Hv. rewrite Hv, He.
+  intros Ha Hv He. unfold xmodel. apply N.eqb_neq in Hv. rewrite Hv, He.
   destruct (x_action x); try congruence; reflexivity.
 Qed.
 
-Lemma xmodel_overlong x : x_action x <> Skip -> x_val x <> 4%N -> x_err x = false ->
-  List.length (x_chain x) < List.length (x_results x) ->
-  xmodel x = mk_xobs (xcalls x) None false true.
+Lemma xmodel_incomplete x : x_action x <> Skip -> x_val x <> 4%N -> x_err x = false ->
+  complete x = false ->
+  xmodel x = mk_xobs (xcalls x) (Some Inconclusive) (enforce_fails (x_action x) Inconclusive) false.
 Proof.
-  intros Ha Hv He Hl. unfold xmodel, xcalls. apply N.eqb_neq in Hv. rewrite Hv, He.
-  apply Nat.ltb_lt in Hl. rewrite Hl. destruct (x_action x); try congruence; reflexivity.
+  intros Ha Hv He Hc. unfold xmodel. apply N.eqb_neq in Hv. rewrite Hv, He, Hc.
+  destruct (x_action x); try congruence; reflexivity.
+Qed.
+
+(* what [complete] means: the slice is [Some c1; ..; Some cn] with n = length of the chain *)
+Lemma forallb_is_some {A} (l : list (option A)) : forallb is_some l = true -> exists cs, l = map Some cs.
+Proof.
+  induction l as [|[c|] l IH]; cbn; [exists []; reflexivity | | discriminate].
+  intros H. destruct (IH H) as [cs ->]. exists (c :: cs). reflexivity.
+Qed.
+
+Lemma flat_some (cs : list certres) :
+  flat_map (fun o => match o with Some c => [cr_result c] | None => [] end) (map Some cs) = map cr_result cs.
+Proof. induction cs as [|c cs IH]; cbn; [reflexivity | now rewrite IH]. Qed.
+
+Lemma complete_spec x : complete x = true ->
+  exists cs, x_results x = map Some cs /\ List.length cs = List.length (x_chain x) /\
+             xresults x = map cr_result cs.
+Proof.
+  unfold complete, xresults. rewrite andb_true_iff, Nat.eqb_eq. intros [Hl Hs].
+  destruct (forallb_is_some _ Hs) as [cs E]. exists cs. rewrite E in *. rewrite map_length in Hl.
+  repeat split; auto. apply flat_some.
+Qed.
+
+Lemma complete_lengths x : complete x = true ->
+  List.length (x_results x) = List.length (x_chain x) /\ List.length (xresults x) = List.length (x_chain x).
+Proof.
+  intros H. destruct (complete_spec _ H) as (cs & E1 & E2 & E3). rewrite E1, E3, !map_length. auto.
 Qed.
 
 Lemma xmodel_answer x : x_action x <> Skip -> x_val x <> 4%N -> x_err x = false ->
-  List.length (x_results x) <= List.length (x_chain x) ->
+  complete x = true ->
   xmodel x =
     let res := classify (verdict (combine (xresults x) (x_chain x))) in
     mk_xobs (xcalls x) (Some res) (enforce_fails (x_action x) res) false.
 Proof.
-  intros Ha Hv He Hl. unfold xmodel, xcalls. apply N.eqb_neq in Hv. rewrite Hv, He.
-  assert (Hn : Nat.ltb (List.length (x_chain x)) (List.length (x_results x)) = false) by (apply Nat.ltb_ge; exact Hl).
-  rewrite Hn, final_is_verdict by (unfold xresults; rewrite map_length; exact Hl).
+  intros Ha Hv He Hc. unfold xmodel. apply N.eqb_neq in Hv. rewrite Hv, He, Hc. cbn [negb].
+  rewrite final_is_verdict by (rewrite (proj2 (complete_lengths _ Hc)); lia).
   destruct (x_action x); try congruence; reflexivity.
 Qed.
 
-Lemma xresults_length x : List.length (xresults x) = List.length (x_results x).
-Proof. unfold xresults. apply map_length. Qed.
+(* the shape of every observation of a step that is entered *)
+Lemma xmodel_cases x : x_action x <> Skip ->
+  exists calls c, xmodel x = mk_xobs calls (Some c) (enforce_fails (x_action x) c) false.
+Proof.
+  intros Ha.
+  destruct (N.eq_dec (x_val x) 4) as [Hv|Hv]; [rewrite (xmodel_novalidator _ Ha Hv); eauto|].
+  destruct (x_err x) eqn:He; [rewrite (xmodel_err _ Ha Hv He); eauto|].
+  destruct (complete x) eqn:Hc.
+  - rewrite (xmodel_answer _ Ha Hv He Hc). cbv zeta. eauto.
+  - rewrite (xmodel_incomplete _ Ha Hv He Hc). eauto.
+Qed.
+
+Lemma enforce_fails_iff a c : enforce_fails a c = true <-> a = Enforce /\ c <> Pass.
+Proof. destruct a, c; cbn; split; try discriminate; try tauto; try (intros [H1 H2]; congruence); intros _; split; congruence. Qed.
 
 Definition cr_ok (c : certres) : Prop := cr_result c = ROK \/ cr_result c = RNonRevokable.
+Definition entry_ok (o : option certres) : Prop := exists c, o = Some c /\ cr_ok c.
 
-Lemma cr_ok_forallb x : Forall cr_ok (x_results x) <-> forallb is_ok (xresults x) = true.
+Lemma entry_ok_forallb cs : Forall entry_ok (map Some cs) <-> forallb is_ok (map cr_result cs) = true.
 Proof.
-  unfold xresults. rewrite <- all_ok_forallb. unfold all_ok. rewrite Forall_map. reflexivity.
+  rewrite <- all_ok_forallb. unfold all_ok. rewrite !Forall_map, !Forall_forall.
+  split; intros H c Hin; specialize (H c Hin).
+  - destruct H as (c' & E & Hok). inversion E; subst. exact Hok.
+  - exists c. split; [reflexivity | exact H].
+Qed.
+
+Lemma forall_entry_ok_some l : Forall entry_ok l -> forallb is_some l = true.
+Proof.
+  intros H. apply forallb_forall. intros o Hin. rewrite Forall_forall in H.
+  destruct (H o Hin) as (c & -> & _). reflexivity.
 Qed.
 
 Lemma verdict_pass_iff rs chain : List.length rs <= List.length chain ->
@@ -199,68 +237,85 @@ Qed.
 Lemma xpass_iff x : x_action x <> Skip ->
   (xo_result (xmodel x) = Some Pass <->
    x_val x <> 4%N /\ x_err x = false /\
-   List.length (x_results x) <= List.length (x_chain x) /\ Forall cr_ok (x_results x)).
+   List.length (x_results x) = List.length (x_chain x) /\ Forall entry_ok (x_results x)).
 Proof.
   intros Ha. destruct (N.eq_dec (x_val x) 4) as [Hv|Hv].
   { rewrite (xmodel_novalidator _ Ha Hv). cbn. split; [discriminate | intros [H _]; congruence]. }
   destruct (x_err x) eqn:He.
   { rewrite (xmodel_err _ Ha Hv He). cbn. split; [discriminate | intros (_ & H & _); discriminate]. }
-  destruct (Nat.lt_ge_cases (List.length (x_chain x)) (List.length (x_results x))) as [Hl|Hl].
-  { rewrite (xmodel_overlong _ Ha Hv He Hl). cbn. split; [discriminate | intros (_ & _ & H & _); lia]. }
-  rewrite (xmodel_answer _ Ha Hv He Hl). cbv zeta. cbn [xo_result].
-  rewrite cr_ok_forallb, <- (verdict_pass_iff (xresults x) (x_chain x)) by (rewrite xresults_length; exact Hl).
-  split.
-  - intros H. inversion H as [H1]. rewrite H1. auto.
-  - intros (_ & _ & _ & H). now rewrite H.
+  destruct (complete x) eqn:Hc.
+  - rewrite (xmodel_answer _ Ha Hv He Hc). cbv zeta. cbn [xo_result].
+    destruct (complete_spec _ Hc) as (cs & E1 & E2 & E3).
+    assert (Hl : List.length (xresults x) <= List.length (x_chain x)) by (rewrite (proj2 (complete_lengths _ Hc)); lia).
+    pose proof (verdict_pass_iff _ _ Hl) as V. rewrite E3 in V at 2. rewrite <- entry_ok_forallb, <- E1 in V.
+    split.
+    + intros H. inversion H as [H1]. repeat split; auto; [apply (complete_lengths _ Hc) | apply V; exact H1].
+    + intros (_ & _ & _ & H). f_equal. apply V, H.
+  - rewrite (xmodel_incomplete _ Ha Hv He Hc). cbn. split; [discriminate|].
+    intros (_ & _ & Hl & Hf). exfalso. unfold complete in Hc.
+    rewrite (proj2 (Nat.eqb_eq _ _) Hl), (forall_entry_ok_some _ Hf) in Hc. discriminate.
 Qed.
 
-(* under the contract: every certificate of the chain has a result, and it is OK / non-revokable *)
+(* the clause as worded, with NO hypothesis on the answer: every certificate of the chain has a
+   result and it is OK / non-revokable *)
 Lemma xpass_only_if x : x_action x <> Skip ->
-  (x_err x = false -> List.length (x_results x) = List.length (x_chain x)) ->
   xo_result (xmodel x) = Some Pass ->
   forall k s, nth_error (x_chain x) k = Some s ->
-    exists c, nth_error (x_results x) k = Some c /\ cr_ok c.
+    exists c, nth_error (x_results x) k = Some (Some c) /\ cr_ok c.
 Proof.
-  intros Ha Hc Hp k s Hk. apply (xpass_iff _ Ha) in Hp. destruct Hp as (_ & He & _ & Hf).
-  specialize (Hc He).
+  intros Ha Hp k s Hk. apply (xpass_iff _ Ha) in Hp. destruct Hp as (_ & _ & Hl & Hf).
   assert (Hlt : k < List.length (x_results x)).
-  { rewrite Hc. apply nth_error_Some. congruence. }
-  destruct (nth_error (x_results x) k) as [c|] eqn:E.
-  - exists c. split; [reflexivity|]. rewrite Forall_forall in Hf. apply Hf. eapply nth_error_In; eauto.
+  { rewrite Hl. apply nth_error_Some. congruence. }
+  destruct (nth_error (x_results x) k) as [o|] eqn:E.
+  - rewrite Forall_forall in Hf. destruct (Hf o (nth_error_In _ _ E)) as (c & -> & Hok). eauto.
   - apply nth_error_None in E. lia.
 Qed.
 
 Lemma xpass_if x : x_action x <> Skip -> x_val x <> 4%N -> x_err x = false ->
-  List.length (x_results x) = List.length (x_chain x) -> Forall cr_ok (x_results x) ->
+  List.length (x_results x) = List.length (x_chain x) -> Forall entry_ok (x_results x) ->
   xo_result (xmodel x) = Some Pass /\ xo_rejected (xmodel x) = false /\ xo_panic (xmodel x) = false.
 Proof.
   intros Ha Hv He Hl Hf.
-  assert (Hp : xo_result (xmodel x) = Some Pass) by (apply (xpass_iff _ Ha); repeat split; auto; lia).
-  split; [exact Hp|]. revert Hp. rewrite (xmodel_answer _ Ha Hv He) by lia. cbv zeta. cbn.
-  intros H; inversion H as [H1]. rewrite H1. destruct (x_action x); auto.
+  assert (Hp : xo_result (xmodel x) = Some Pass) by (apply (xpass_iff _ Ha); repeat split; auto).
+  split; [exact Hp|]. destruct (xmodel_cases _ Ha) as (calls & c & E). rewrite E in *. cbn in *.
+  inversion Hp; subst c. destruct (x_action x); auto.
 Qed.
 
-(* without the contract the "only if" is false: a validator that answers with fewer
-   results than certificates (here: none at all, no error) makes the validation pass *)
-Lemma xpass_only_if_refuted :
-  exists x, x_action x = Enforce /\ x_err x = false /\ x_val x = 1%N /\
-            xo_result (xmodel x) = Some Pass /\ xo_rejected (xmodel x) = false /\ xo_panic (xmodel x) = false /\
-            exists k s, nth_error (x_chain x) k = Some s /\ nth_error (x_results x) k = None.
+(* an answer that is not exactly one non-nil result per certificate is inconclusive *)
+Lemma xincomplete x : x_action x <> Skip -> x_err x = false -> complete x = false ->
+  xo_result (xmodel x) = Some Inconclusive /\ xo_panic (xmodel x) = false /\
+  xo_rejected (xmodel x) = match x_action x with Enforce => true | _ => false end.
 Proof.
-  exists (mk_xinput Enforce false 1 (Some 1700000000%Z) ["leaf"; "root"] false []).
-  repeat split. exists 0, "leaf". split; reflexivity.
+  intros Ha He Hc. destruct (N.eq_dec (x_val x) 4) as [Hv|Hv].
+  - rewrite (xmodel_novalidator _ Ha Hv). cbn. destruct (x_action x); auto.
+  - rewrite (xmodel_incomplete _ Ha Hv He Hc). cbn. destruct (x_action x); auto.
 Qed.
 
-Lemma xrevoked x : x_action x <> Skip -> x_val x <> 4%N -> x_err x = false ->
-  List.length (x_results x) <= List.length (x_chain x) ->
+Lemma complete_false_iff x :
+  complete x = false <->
+  List.length (x_results x) <> List.length (x_chain x) \/ In None (x_results x).
+Proof.
+  unfold complete. rewrite andb_false_iff, Nat.eqb_neq. split; (intros [H|H]; [now left | right]).
+  - induction (x_results x) as [|[c|] l IH]; cbn in *; [discriminate | right; auto | now left].
+  - destruct (forallb is_some (x_results x)) eqn:E; [|reflexivity].
+    rewrite forallb_forall in E. specialize (E _ H). discriminate.
+Qed.
+
+Lemma xnever_panics x : xo_panic (xmodel x) = false.
+Proof.
+  destruct (action_eq_dec (x_action x) Skip) as [Ea|Ha]; [now rewrite (xmodel_skip _ Ea)|].
+  destruct (xmodel_cases _ Ha) as (calls & c & E). now rewrite E.
+Qed.
+
+Lemma xrevoked x : x_action x <> Skip -> x_val x <> 4%N -> x_err x = false -> complete x = true ->
   In RRevoked (xresults x) ->
   exists k s, nth_error (xresults x) k = Some RRevoked /\
               (forall j, j < k -> nth_error (xresults x) j <> Some RRevoked) /\
               nth_error (x_chain x) k = Some s /\
               xo_result (xmodel x) = Some (Revoked s).
 Proof.
-  intros Ha Hv He Hl Hin. rewrite (xmodel_answer _ Ha Hv He Hl). cbv zeta. cbn [xo_result].
-  assert (Hl' : List.length (xresults x) <= List.length (x_chain x)) by (rewrite xresults_length; exact Hl).
+  intros Ha Hv He Hc Hin. rewrite (xmodel_answer _ Ha Hv He Hc). cbv zeta. cbn [xo_result].
+  assert (Hl' : List.length (xresults x) <= List.length (x_chain x)) by (rewrite (proj2 (complete_lengths _ Hc)); lia).
   assert (E : existsb is_revoked (xresults x) = true) by (apply existsb_exists; exists RRevoked; auto).
   destruct (find_combine_some is_revoked _ _ Hl' E) as ([r s] & Hf).
   destruct (find_combine is_revoked _ _ _ _ Hf) as (k & H1 & H2 & H3 & H4).
@@ -270,22 +325,21 @@ Proof.
   - unfold verdict. change (find revp) with (find (fun x : rres * string => is_revoked (fst x))). now rewrite Hf.
 Qed.
 
-Lemma xunknown x : x_action x <> Skip -> x_val x <> 4%N -> x_err x = false ->
-  List.length (x_results x) <= List.length (x_chain x) ->
-  ~ Forall cr_ok (x_results x) -> ~ In RRevoked (xresults x) ->
+Lemma xunknown x : x_action x <> Skip -> x_val x <> 4%N -> x_err x = false -> complete x = true ->
+  ~ all_ok (xresults x) -> ~ In RRevoked (xresults x) ->
   exists k r s, nth_error (xresults x) k = Some r /\ is_ok r = false /\ r <> RRevoked /\
                 (forall j r', j < k -> nth_error (xresults x) j = Some r' -> is_ok r' = true) /\
                 nth_error (x_chain x) k = Some s /\
                 xo_result (xmodel x) = Some (Unknown s).
 Proof.
-  intros Ha Hv He Hl Hn Hr. rewrite (xmodel_answer _ Ha Hv He Hl). cbv zeta. cbn [xo_result].
-  assert (Hl' : List.length (xresults x) <= List.length (x_chain x)) by (rewrite xresults_length; exact Hl).
+  intros Ha Hv He Hc Hn Hr. rewrite (xmodel_answer _ Ha Hv He Hc). cbv zeta. cbn [xo_result].
+  assert (Hl' : List.length (xresults x) <= List.length (x_chain x)) by (rewrite (proj2 (complete_lengths _ Hc)); lia).
   assert (Er : find revp (combine (xresults x) (x_chain x)) = None).
   { destruct (find revp _) as [[r s]|] eqn:E; [exfalso|reflexivity].
     destruct (find_combine is_revoked _ _ _ _ E) as (k & H1 & _ & H3 & _).
     apply Hr. destruct r; cbn in H3; try discriminate. eapply nth_error_In; eauto. }
   assert (E : existsb (fun r => negb (is_ok r)) (xresults x) = true).
-  { destruct (existsb _ (xresults x)) eqn:E; [reflexivity|exfalso]. apply Hn, cr_ok_forallb.
+  { destruct (existsb _ (xresults x)) eqn:E; [reflexivity|exfalso]. apply Hn, all_ok_forallb.
     apply forallb_forall. intros r Hin. destruct (is_ok r) eqn:Eo; [reflexivity|].
     rewrite <- E. apply existsb_exists. exists r. rewrite Eo. auto. }
   destruct (find_combine_some (fun r => negb (is_ok r)) _ _ Hl' E) as ([r s] & Hf).
@@ -296,6 +350,14 @@ Proof.
   - intros j r' Hj Hj'. specialize (H4 j r' Hj Hj'). now apply negb_false_iff in H4.
   - unfold verdict. rewrite Er. change (find nokp) with (find (fun x : rres * string => negb (is_ok (fst x)))).
     rewrite Hf. unfold classify. cbn [fst snd]. destruct r; cbn in H3; try discriminate; try reflexivity. congruence.
+Qed.
+
+(* under [complete], entry k of [xresults] is the result reported for certificate k *)
+Lemma xresults_nth x k : complete x = true ->
+  nth_error (xresults x) k = option_map cr_result (match nth_error (x_results x) k with Some o => o | None => None end).
+Proof.
+  intros Hc. destruct (complete_spec _ Hc) as (cs & E1 & _ & E3). rewrite E1, E3, !nth_error_map.
+  destruct (nth_error cs k); reflexivity.
 Qed.
 
 Lemma xvalidator_error x : x_action x <> Skip -> x_err x = true ->
@@ -312,65 +374,34 @@ Lemma xno_validator x : x_action x <> Skip -> x_val x = 4%N ->
   xo_rejected (xmodel x) = match x_action x with Enforce => true | _ => false end.
 Proof. intros Ha Hv. rewrite (xmodel_novalidator _ Ha Hv). cbn. destruct (x_action x); auto. Qed.
 
+Lemma xo_calls_model x : x_action x <> Skip ->
+  xo_calls (xmodel x) = if (x_val x =? 4)%N then [] else xcalls x.
+Proof.
+  intros Ha.
+  destruct (N.eq_dec (x_val x) 4) as [Hv|Hv]; [rewrite (xmodel_novalidator _ Ha Hv), Hv; reflexivity|].
+  rewrite (proj2 (N.eqb_neq _ _) Hv).
+  destruct (x_err x) eqn:He; [rewrite (xmodel_err _ Ha Hv He); reflexivity|].
+  destruct (complete x) eqn:Hc.
+  - now rewrite (xmodel_answer _ Ha Hv He Hc).
+  - now rewrite (xmodel_incomplete _ Ha Hv He Hc).
+Qed.
+
 (* the consultation does not depend on the answer *)
 Lemma xarguments x : x_action x <> Skip -> (x_val x = 1 \/ x_val x = 2 \/ x_val x = 3)%N ->
   xo_calls (xmodel x) =
     [mk_xcall (if (x_val x =? 2)%N then 2 else 1) (x_chain x) (if x_sa x then x_stime x else None)].
 Proof.
-  intros Ha Hv. unfold xmodel, xtime.
-  destruct (x_action x); try congruence;
-    destruct Hv as [-> | [-> | ->]]; cbn -[Nat.ltb];
-    destruct (x_err x); try reflexivity;
-    destruct (Nat.ltb _ _); reflexivity.
+  intros Ha Hv. rewrite (xo_calls_model _ Ha). unfold xcalls, xtime.
+  destruct Hv as [-> | [-> | ->]]; reflexivity.
 Qed.
 
-Lemma xpanic_iff x :
-  xo_panic (xmodel x) = true <->
-  x_action x <> Skip /\ x_val x <> 4%N /\ x_err x = false /\
-  List.length (x_chain x) < List.length (x_results x).
-Proof.
-  destruct (x_action x) eqn:Ea.
-  3: { rewrite (xmodel_skip _ Ea). cbn. split; [discriminate | intros [H _]; congruence]. }
-  all: assert (Ha : x_action x <> Skip) by congruence.
-  all: destruct (N.eq_dec (x_val x) 4) as [Hv|Hv];
-    [ rewrite (xmodel_novalidator _ Ha Hv); cbn; split; [discriminate | intros (_ & H & _); congruence] |].
-  all: destruct (x_err x) eqn:He;
-    [ rewrite (xmodel_err _ Ha Hv He); cbn; split; [discriminate | intros (_ & _ & H & _); discriminate] |].
-  all: destruct (Nat.lt_ge_cases (List.length (x_chain x)) (List.length (x_results x))) as [Hl|Hl];
-    [ rewrite (xmodel_overlong _ Ha Hv He Hl); cbn; split; [intros _; repeat split; auto; discriminate | reflexivity]
-    | rewrite (xmodel_answer _ Ha Hv He Hl); cbn; split; [discriminate | intros (_ & _ & _ & H); lia] ].
-Qed.
-
-Lemma xoverlong_never_passes x : x_action x <> Skip -> x_val x <> 4%N -> x_err x = false ->
-  List.length (x_chain x) < List.length (x_results x) ->
-  xo_panic (xmodel x) = true /\ xo_result (xmodel x) = None.
-Proof. intros Ha Hv He Hl. rewrite (xmodel_overlong _ Ha Hv He Hl). auto. Qed.
-
-(* the shape of every observation of a step that is entered *)
-Lemma xmodel_cases x : x_action x <> Skip ->
-  (xmodel x = mk_xobs (xcalls x) None false true) \/
-  (exists calls c, xmodel x = mk_xobs calls (Some c) (enforce_fails (x_action x) c) false).
-Proof.
-  intros Ha.
-  destruct (N.eq_dec (x_val x) 4) as [Hv|Hv]; [right; rewrite (xmodel_novalidator _ Ha Hv); eauto|].
-  destruct (x_err x) eqn:He; [right; rewrite (xmodel_err _ Ha Hv He); eauto|].
-  destruct (Nat.lt_ge_cases (List.length (x_chain x)) (List.length (x_results x))) as [Hl|Hl].
-  - left. apply (xmodel_overlong _ Ha Hv He Hl).
-  - right. rewrite (xmodel_answer _ Ha Hv He Hl). cbv zeta. eauto.
-Qed.
-
-Lemma enforce_fails_iff a c : enforce_fails a c = true <-> a = Enforce /\ c <> Pass.
-Proof. destruct a, c; cbn; split; try discriminate; try tauto; try (intros [H1 H2]; congruence); intros _; split; congruence. Qed.
-
-(* a result entry exists exactly when the step is entered and does not panic *)
+(* a result entry exists exactly when the step is entered *)
 Lemma xresult_some_iff x :
-  (exists c, xo_result (xmodel x) = Some c) <-> x_action x <> Skip /\ xo_panic (xmodel x) = false.
+  (exists c, xo_result (xmodel x) = Some c) <-> x_action x <> Skip.
 Proof.
   destruct (action_eq_dec (x_action x) Skip) as [Ea|Ha].
-  { rewrite (xmodel_skip _ Ea). cbn. split; [intros [c H]; discriminate | intros [H _]; congruence]. }
-  destruct (xmodel_cases _ Ha) as [E | (calls & c & E)]; rewrite E; cbn.
-  - split; [intros [c H]; discriminate | intros [_ H]; discriminate].
-  - split; [intros _; split; [exact Ha | reflexivity] | intros _; eauto].
+  { rewrite (xmodel_skip _ Ea). cbn. split; [intros [c H]; discriminate | congruence]. }
+  destruct (xmodel_cases _ Ha) as (calls & c & E); rewrite E; cbn. split; eauto.
 Qed.
 
 Lemma xrejected_iff x :
@@ -379,11 +410,10 @@ Lemma xrejected_iff x :
 Proof.
   destruct (action_eq_dec (x_action x) Skip) as [Ea|Ha].
   { rewrite (xmodel_skip _ Ea). cbn. split; [discriminate | intros [H _]; congruence]. }
-  destruct (xmodel_cases _ Ha) as [E | (calls & c & E)]; rewrite E; cbn.
-  - split; [discriminate | intros [_ (c & H & _)]; discriminate].
-  - rewrite enforce_fails_iff. split.
-    + intros [H1 H2]. split; [exact H1|]. exists c. split; [reflexivity | exact H2].
-    + intros [H1 (c' & Hc & Hn)]. inversion Hc; subst c'. auto.
+  destruct (xmodel_cases _ Ha) as (calls & c & E); rewrite E; cbn.
+  rewrite enforce_fails_iff. split.
+  - intros [H1 H2]. split; [exact H1|]. exists c. split; [reflexivity | exact H2].
+  - intros [H1 (c' & Hc & Hn)]. inversion Hc; subst c'. auto.
 Qed.
 
 (* fail closed at the level of Verify: under enforce the signature gets through the
@@ -392,50 +422,58 @@ Lemma xaccept_iff x : x_action x = Enforce ->
   (xo_rejected (xmodel x) = false /\ xo_panic (xmodel x) = false <-> xo_result (xmodel x) = Some Pass).
 Proof.
   intros Ea. assert (Ha : x_action x <> Skip) by congruence. split.
-  - intros [Hr Hp].
-    assert (Hs : exists c, xo_result (xmodel x) = Some c) by (apply xresult_some_iff; auto).
-    destruct Hs as [c Hc]. destruct c; try exact Hc; exfalso.
+  - intros [Hr _].
+    destruct (proj2 (xresult_some_iff x) Ha) as [c Hc]. destruct c; try exact Hc; exfalso.
     all: assert (Ht : xo_rejected (xmodel x) = true)
       by (apply xrejected_iff; split; [exact Ea|]; eexists; split; [exact Hc | discriminate]).
     all: congruence.
-  - intros Hp. split.
-    + destruct (xo_rejected (xmodel x)) eqn:E; [exfalso|reflexivity].
-      apply xrejected_iff in E. destruct E as [_ (c & Hc & Hn)]. congruence.
-    + assert (Hs : exists c, xo_result (xmodel x) = Some c) by eauto.
-      apply xresult_some_iff in Hs. tauto.
+  - intros Hp. split; [|apply xnever_panics].
+    destruct (xo_rejected (xmodel x)) eqn:E; [exfalso|reflexivity].
+    apply xrejected_iff in E. destruct E as [_ (c & Hc & Hn)]. congruence.
 Qed.
 
 Lemma xlog_reports x : x_action x = Log ->
-  xo_rejected (xmodel x) = false /\
-  (xo_panic (xmodel x) = false -> exists c, xo_result (xmodel x) = Some c).
+  xo_rejected (xmodel x) = false /\ exists c, xo_result (xmodel x) = Some c.
 Proof.
   intros Ea. split.
   - destruct (xo_rejected (xmodel x)) eqn:E; [exfalso|reflexivity].
     apply xrejected_iff in E. destruct E as [H _]. congruence.
-  - intros Hp. apply xresult_some_iff. split; [congruence | exact Hp].
+  - apply xresult_some_iff. congruence.
 Qed.
 
 (* method annotations and per-server results never matter *)
+Definition view (l : list (option certres)) : list (option rres) := map (option_map cr_result) l.
+
+Lemma view_determines l l' : view l = view l' ->
+  List.length l = List.length l' /\ forallb is_some l = forallb is_some l' /\
+  flat_map (fun o => match o with Some c => [cr_result c] | None => [] end) l =
+  flat_map (fun o => match o with Some c => [cr_result c] | None => [] end) l'.
+Proof.
+  revert l'; induction l as [|o l IH]; intros [|o' l']; cbn; try discriminate; [auto|].
+  intros H. inversion H as [[H1 H2]]. destruct (IH _ H2) as (A & B & C).
+  destruct o, o'; cbn in *; try discriminate; rewrite ?A, ?B, ?C; repeat split; auto.
+  inversion H1 as [H3]. now rewrite H3.
+Qed.
+
 Lemma xindependent x y :
   x_action x = x_action y -> x_sa x = x_sa y -> x_val x = x_val y -> x_stime x = x_stime y ->
   x_chain x = x_chain y -> x_err x = x_err y ->
-  map cr_result (x_results x) = map cr_result (x_results y) ->
+  view (x_results x) = view (x_results y) ->
   xmodel x = xmodel y.
 Proof.
-  intros H1 H2 H3 H4 H5 H6 H7. unfold xmodel, xtime, xresults.
-  assert (Hlen : List.length (x_results x) = List.length (x_results y))
-    by (rewrite <- (map_length cr_result (x_results x)), H7; apply map_length).
-  now rewrite H1, H2, H3, H4, H5, H6, H7, Hlen.
+  intros H1 H2 H3 H4 H5 H6 H7. destruct (view_determines _ _ H7) as (A & B & C).
+  unfold xmodel, xcalls, xtime, complete, xresults.
+  now rewrite H1, H2, H3, H4, H5, H6, A, B, C.
 Qed.
 
 (* an error makes the accompanying results irrelevant *)
 Lemma xerror_ignores_results x rs' : x_err x = true ->
   xmodel x = xmodel (mk_xinput (x_action x) (x_sa x) (x_val x) (x_stime x) (x_chain x) true rs').
 Proof.
-  intros He. unfold xmodel, xtime. cbn. rewrite He. reflexivity.
+  intros He. unfold xmodel, xcalls, xtime. cbn. rewrite He. reflexivity.
 Qed.
 
-(* ---------- the model meets the oracle under the contract ---------- *)
+(* ---------- the model meets the oracle on EVERY input ---------- *)
 Lemma xnamed_ok p rs chain k r s :
   nth_error rs k = Some r -> nth_error chain k = Some s -> p r = true -> named_ok p rs chain s = true.
 Proof.
@@ -449,18 +487,6 @@ Qed.
 Lemma optz_eqb_refl o : optz_eqb o o = true.
 Proof. destruct o; cbn; [apply Z.eqb_refl | reflexivity]. Qed.
 
-Lemma xo_calls_model x : x_action x <> Skip ->
-  xo_calls (xmodel x) = if (x_val x =? 4)%N then [] else xcalls x.
-Proof.
-  intros Ha.
-  destruct (N.eq_dec (x_val x) 4) as [Hv|Hv]; [rewrite (xmodel_novalidator _ Ha Hv), Hv; reflexivity|].
-  rewrite (proj2 (N.eqb_neq _ _) Hv).
-  destruct (x_err x) eqn:He; [rewrite (xmodel_err _ Ha Hv He); reflexivity|].
-  destruct (Nat.lt_ge_cases (List.length (x_chain x)) (List.length (x_results x))) as [Hl|Hl].
-  - now rewrite (xmodel_overlong _ Ha Hv He Hl).
-  - now rewrite (xmodel_answer _ Ha Hv He Hl).
-Qed.
-
 Lemma xcalls_ok_model x : x_action x <> Skip -> xcalls_ok x (xo_calls (xmodel x)) = true.
 Proof.
   intros Ha. rewrite (xo_calls_model _ Ha).
@@ -471,23 +497,22 @@ Proof.
     rewrite ?Hs, ?optz_eqb_refl; reflexivity.
 Qed.
 
-Lemma xmodel_spec_ok x : xwf x = true -> xspec_ok x (xmodel x) = true.
+Lemma xmodel_spec_ok x : xspec_ok x (xmodel x) = true.
 Proof.
-  intros Hwf. unfold xspec_ok.
+  unfold xspec_ok. rewrite xnever_panics. cbn [negb andb].
   destruct (x_action x) eqn:Ea; [| | rewrite (xmodel_skip _ Ea); reflexivity].
   all: assert (Ha : x_action x <> Skip) by congruence.
   all: rewrite (xcalls_ok_model _ Ha); cbn [andb].
-  all: unfold xwf in Hwf.
   all: destruct (N.eq_dec (x_val x) 4) as [Hv|Hv];
     [ rewrite (xmodel_novalidator _ Ha Hv); unfold xresult_ok; rewrite Hv, Ea; reflexivity |].
   all: destruct (x_err x) eqn:He;
     [ rewrite (xmodel_err _ Ha Hv He); unfold xresult_ok; rewrite He, Ea, orb_true_r; reflexivity |].
-  all: cbn [orb] in Hwf; apply Nat.eqb_eq in Hwf.
-  all: assert (Hl : List.length (x_results x) <= List.length (x_chain x)) by lia.
-  all: assert (Hl' : List.length (xresults x) <= List.length (x_chain x)) by (rewrite xresults_length; exact Hl).
-  all: rewrite (xmodel_answer _ Ha Hv He Hl), Ea; cbv zeta; cbn [xo_panic xo_result xo_rejected negb andb];
+  all: destruct (complete x) eqn:Hc;
+    [| rewrite (xmodel_incomplete _ Ha Hv He Hc); unfold xresult_ok; rewrite Hc, Ea, orb_true_r; reflexivity ].
+  all: assert (Hl' : List.length (xresults x) <= List.length (x_chain x)) by (rewrite (proj2 (complete_lengths _ Hc)); lia).
+  all: rewrite (xmodel_answer _ Ha Hv He Hc), Ea; cbv zeta; cbn [xo_result xo_rejected];
        rewrite eqb_reflx, andb_true_r.
-  all: unfold xresult_ok; apply N.eqb_neq in Hv; rewrite Hv, He; cbn [orb].
+  all: unfold xresult_ok; apply N.eqb_neq in Hv; rewrite Hv, He, Hc; cbn [orb negb].
   all: destruct (forallb is_ok (xresults x)) eqn:E1;
     [ apply (verdict_pass_iff _ _ Hl') in E1; now rewrite E1 |].
   all: destruct (existsb is_revoked (xresults x)) eqn:E2.
@@ -523,31 +548,105 @@ Definition call_of_x (k : xcall) : call :=
 Definition obs_of_x (o : xobs) : obs :=
   mk_obs (map call_of_x (xo_calls o)) (xo_result o) (xo_rejected o).
 
-(* any decoration of an old input: annotations [ann], a signing time [t], and, for a
-   validator error, any accompanying results *)
-Definition vout_matches (v : vout) (err : bool) (rs : list certres) : Prop :=
+(* any decoration of an old input: annotations, a signing time [t], and, for a
+   validator error, any accompanying results (the old input has no nil entries) *)
+Definition vout_matches (v : vout) (err : bool) (rs : list (option certres)) : Prop :=
   match v with
   | VErr => err = true
-  | VRes r => err = false /\ map cr_result rs = r
+  | VRes r => err = false /\ view rs = map Some r
   end.
 
-Lemma xmodel_refines_model i t err rs :
-  wf i = true -> (i_val i <= 3)%N -> vout_matches (i_vout i) err rs ->
-  let x := mk_xinput (i_action i) (i_sa i) (i_val i) (Some t) (i_chain i) err rs in
-  obs_of_x (xmodel x) = model i /\ xo_panic (xmodel x) = false.
+Lemma view_some rs r : view rs = map Some r ->
+  List.length rs = List.length r /\ forallb is_some rs = true /\
+  flat_map (fun o => match o with Some c => [cr_result c] | None => [] end) rs = r.
 Proof.
-  intros Hwf Hv Hm x.
+  revert r; induction rs as [|o rs IH]; intros [|r0 r]; cbn; try discriminate; [auto|].
+  intros H. inversion H as [[H1 H2]]. destruct (IH _ H2) as (A & B & C).
+  destruct o; cbn in *; try discriminate. inversion H1. subst. rewrite A, B. auto.
+Qed.
+
+Lemma xmodel_refines_model i t err rs :
+  (i_val i <= 3)%N -> vout_matches (i_vout i) err rs ->
+  let x := mk_xinput (i_action i) (i_sa i) (i_val i) (Some t) (i_chain i) err rs in
+  obs_of_x (xmodel x) = model i.
+Proof.
+  intros Hv Hm x.
   assert (Hv4 : (i_val i =? 4)%N = false) by (apply N.eqb_neq; lia).
-  unfold wf in Hwf. unfold xmodel, model, x, xtime, obs_of_x, xresults. cbn [x_action x_val x_err x_results x_chain x_sa x_stime].
+  unfold xmodel, model, x, xcalls, xtime, obs_of_x, xresults, complete.
+  cbn [x_action x_val x_err x_results x_chain x_sa x_stime].
   rewrite Hv4.
   destruct (i_vout i) as [|r] eqn:Ev; cbn in Hm.
-  - subst err. destruct (i_action i); cbn; (split; [|reflexivity]);
+  - subst err. destruct (i_action i); cbn;
       destruct (i_val i) as [|[[]|[]|]]; cbn; destruct (i_sa i); reflexivity.
-  - destruct Hm as [-> <-]. apply Nat.eqb_eq in Hwf. rewrite map_length in Hwf.
-    assert (Hn : Nat.ltb (List.length (i_chain i)) (List.length rs) = false) by (apply Nat.ltb_ge; lia).
-    rewrite Hn.
-    destruct (i_action i); cbn; (split; [|reflexivity]);
+  - destruct Hm as [-> Hm]. destruct (view_some _ _ Hm) as (A & B & C). rewrite A, B, C, andb_true_r.
+    destruct (Nat.eqb (List.length r) (List.length (i_chain i))); cbn [negb];
+    destruct (i_action i); cbn;
       destruct (i_val i) as [|[[]|[]|]]; cbn; destruct (i_sa i); reflexivity.
+Qed.
+
+(* ---------- the code before fix d78db00 ---------- *)
+Lemma xpass_only_if_v0_refuted :
+  exists x, x_action x = Enforce /\ x_err x = false /\ x_val x = 1%N /\
+            xo_result (xmodel_v0 x) = Some Pass /\ xo_rejected (xmodel_v0 x) = false /\ xo_panic (xmodel_v0 x) = false /\
+            (exists k s, nth_error (x_chain x) k = Some s /\ nth_error (x_results x) k = None) /\
+            (* the fixed code on the same input *)
+            xo_result (xmodel x) = Some Inconclusive /\ xo_rejected (xmodel x) = true.
+Proof.
+  exists (mk_xinput Enforce false 1 (Some 1700000000%Z) ["leaf"; "root"] false []).
+  repeat split. exists 0, "leaf". split; reflexivity.
+Qed.
+
+Lemma xv0_panic_iff x :
+  xo_panic (xmodel_v0 x) = true <->
+  x_action x <> Skip /\ x_val x <> 4%N /\ x_err x = false /\
+  (List.length (x_chain x) < List.length (x_results x) \/ In None (x_results x)).
+Proof.
+  assert (G : Nat.ltb (List.length (x_chain x)) (List.length (x_results x)) || negb (forallb is_some (x_results x)) = true
+              <-> List.length (x_chain x) < List.length (x_results x) \/ In None (x_results x)).
+  { rewrite orb_true_iff, Nat.ltb_lt, negb_true_iff. split; (intros [H|H]; [now left | right]).
+    - induction (x_results x) as [|[c|] l IH]; cbn in *; [discriminate | right; auto | now left].
+    - destruct (forallb is_some (x_results x)) eqn:E; [|reflexivity].
+      rewrite forallb_forall in E. specialize (E _ H). discriminate. }
+  unfold xmodel_v0.
+  destruct (x_action x) eqn:Ea; [| | cbn; split; [discriminate | intros [H _]; congruence]].
+  all: destruct (N.eq_dec (x_val x) 4) as [Hv|Hv];
+    [ rewrite Hv; cbn; split; [discriminate | intros (_ & H & _); congruence] | rewrite (proj2 (N.eqb_neq _ _) Hv) ].
+  all: destruct (x_err x) eqn:He; [cbn; split; [discriminate | intros (_ & _ & H & _); discriminate]|].
+  all: destruct (Nat.ltb _ _ || negb _) eqn:Eg; cbn.
+  1,3: split; [intros _; repeat split; try discriminate; auto; apply G; reflexivity | reflexivity].
+  all: split; [discriminate | intros (_ & _ & _ & H); apply G in H; discriminate].
+Qed.
+
+(* the fix changes nothing for a validator that keeps the contract *)
+Lemma xfix_conservative x : xwf x = true -> xmodel x = xmodel_v0 x.
+Proof.
+  unfold xwf, xmodel, xmodel_v0. destruct (x_err x) eqn:He; cbn [orb].
+  - intros _. reflexivity.
+  - intros Hc. rewrite Hc. cbn [negb].
+    assert (E : Nat.ltb (List.length (x_chain x)) (List.length (x_results x)) || negb (forallb is_some (x_results x)) = false).
+    { unfold complete in Hc. apply andb_true_iff in Hc. destruct Hc as [H1 H2]. apply Nat.eqb_eq in H1.
+      rewrite H2, orb_false_r. apply Nat.ltb_ge. lia. }
+    now rewrite E.
+Qed.
+
+Lemma xincomplete_answer x : x_action x <> Skip -> x_err x = false ->
+  (List.length (x_results x) <> List.length (x_chain x) \/ In None (x_results x)) ->
+  xo_result (xmodel x) = Some Inconclusive /\ xo_panic (xmodel x) = false /\
+  xo_rejected (xmodel x) = match x_action x with Enforce => true | _ => false end.
+Proof. intros Ha He H. apply (xincomplete x Ha He). apply complete_false_iff. exact H. Qed.
+
+Lemma complete_meaning x :
+  (complete x = true <->
+   List.length (x_results x) = List.length (x_chain x) /\ ~ In None (x_results x)) /\
+  (complete x = true -> forall k,
+     nth_error (xresults x) k =
+     option_map cr_result (match nth_error (x_results x) k with Some o => o | None => None end)).
+Proof.
+  split; [|intros H k; apply xresults_nth, H].
+  destruct (complete x) eqn:E.
+  - split; [intros _|reflexivity]. split; [apply (complete_lengths _ E)|].
+    intros Hin. assert (complete x = false) by (apply complete_false_iff; now right). congruence.
+  - apply complete_false_iff in E. split; [discriminate|]. intros [H1 H2]. tauto.
 Qed.
 
 (* ---------- validator selection ---------- *)
